@@ -15,6 +15,27 @@ def reg(pid, technique, text, note, ref):
 
 exec(open(os.path.join(HERE, 'tools', 'manifest_table.py')).read())
 
+def sub_checks(pid):
+    """The sub-checks a property module registers (read from its source: name, case counts, rule)."""
+    import ast
+    tree = ast.parse(open(os.path.join(HERE, 'vf', 'props', pid.lower() + '.py')).read())
+    out = []
+    for node in tree.body:
+        if isinstance(node, ast.Assign) and any(isinstance(t, ast.Name) and t.id == 'SUBS' for t in node.targets):
+            for call in node.value.elts:
+                name = call.args[0].value
+                kw = {k.arg: k.value for k in call.keywords}
+                def const(n):
+                    try:
+                        return ast.literal_eval(n)
+                    except Exception:
+                        return None
+                q, t, rule = const(kw.get('quick')), const(kw.get('thorough')), const(kw.get('rule'))
+                size = 'enumerated' if 'enum' in kw else 'quick %s / thorough %s cases' % (q, t)
+                out.append('%s [%s]: %s' % (name, size, rule))
+    return out
+
+
 props = [json.loads(l) for l in open(os.path.join(HERE, 'properties.jsonl'))]
 checks = []
 not_applicable = []
@@ -30,7 +51,7 @@ for p in props:
             'replay_cmd_template': '/venv/bin/python -m vf.run %s --replay {path}' % pid,
             'engine': 'vf',
             'level_claimed': {'category': 'exploration', 'text': text, 'design_ref': ref},
-            'level_note': note,
+            'level_note': note + ' Sub-checks as registered in the code: ' + '; '.join(sub_checks(pid)) + '.',
             'technique': technique,
         })
     else:
